@@ -971,6 +971,15 @@ impl Model {
                             "data-unanswered",
                             "data segment behind a valid cookie got no reply".into(),
                         ));
+                        // the application property owns it too when the segment completes a
+                        // request that must be answered
+                        if let AppVerdict::Answer(req) = app {
+                            j.findings.push(finding(
+                                req.prop(),
+                                &format!("unanswered:{}", req.kind()),
+                                format!("complete {} request in a data segment behind a valid cookie got no reply at all: stream {}", req.kind(), hex(stream)),
+                            ));
+                        }
                     }
                     Some(t) => {
                         self.check_data_header(&t, *seq, *ack, ctx, app, j);
